@@ -13,7 +13,7 @@ CONSTANTS
   XQs = {}
   XfrIds = {}
   XfrAll = FALSE
-  QVars = {101, 201, 301, 401}
+  QVars = {}
   EndKinds = {"eof"}
   Frames <- MCFrames
 SPECIFICATION Spec
